@@ -482,9 +482,9 @@ func init() {
 	}
 	ck.Run = func(c *run.Ctx) *run.ShardResult {
 		sr := run.NewShardResult()
-		n := 320
+		n := 640
 		if c.Thorough() {
-			n = 6400
+			n = 9600
 		}
 		for idx := 0; idx < n; idx++ {
 			if !c.Mine(idx) {
